@@ -18,6 +18,8 @@ def run(rep, tier):
     linalg.r_lu_siblings(rep, f)
     linalg.r_pivot_argmax(rep, f)
     linalg.r_mult_sign(rep, f)
+    rep.rule("R-LU-INTERLEAVE", "writer/reader agreement on row interchanges: the factorisation swaps only columns >= k (deferred interchanges), so every pivot read in a solve sits in the elimination loop over k and precedes the update of column k")
+    linalg.r_lu_interleave(rep, f)
     linalg.r_cplx_algebra(rep, f)
     linalg.r_solve_readonly(rep, f)
     linalg.r_lu_checked(rep, f)
